@@ -199,6 +199,7 @@ int64_t input_value(int pattern, int bits, uint64_t dseed, int nnz, uint64_t tot
 struct MLimb {
   std::vector<i128> c;  // N coefficients
   long double mag = 0;  // DFT-space: bound on the sum of products of l1 norms behind it
+  long double tol = 0;  // > 0: the value is only determined up to this absolute error (products at the edge of the budget)
   int depth = 0;
   bool valid = true;
 };
@@ -220,6 +221,7 @@ struct Model {
   void load_input(int slot);
 };
 long double poly_l1(const std::vector<i128>& c);
+long double poly_l2(const std::vector<i128>& c);
 i128 poly_linf(const std::vector<i128>& c);
 
 // ---------------------------------------------------------------------------------------------- generator
@@ -231,6 +233,7 @@ struct GenCfg {
   bool repeats = false;         // C15 repeat calls
   bool small_pools = false;     // C15 colliding parameter pools
   bool q120 = false;
+  bool edge_products = false;   // some products sit at the edge of the 52-bit budget and are compared within the documented error bound
   bool kernel_pairs = false;    // C07 ride-along: exported ref/avx2 kernel twins on identical operands
   int ntasks = 0;               // 0 = single sequence
   int min_calls = 4, max_calls = 20;  // per task (or total when ntasks==0)
@@ -280,6 +283,7 @@ struct Exec {
   std::vector<uint8_t> owned;    // slot allocated by this Exec
   std::vector<std::vector<uint64_t>> out_hash;  // per call: hash of each output operand after the call
   std::vector<uint8_t> done;     // per call executed
+  std::vector<uint8_t> approx;   // per call: output only determined up to a documented tolerance (compared with the model, not bit-wise)
   Model model;
   std::vector<Violation> viol;
   uint64_t lib_mark = 0;
